@@ -437,6 +437,22 @@ def run(res):
     res.coverage["exhaustive"] = False
     res.add_samples([{"op": ops[i], "impl": impl[i], "monitor": mon[i], "model": model[i]} for i in (accepted[:2] + accepted[len(accepted) // 2:len(accepted) // 2 + 2] + [0, len(ops) - 1])])
 
+    if res.tier == "thorough":
+        # oracle cross-check of the *spec*: llvm-mc-14 assembles the same instruction; a disagreement on a line the monitor
+        # accepted is reported as SPEC-SUSPECT in the evidence, never as a violation (DESIGN.md section 2)
+        import a64_gnu
+        cand = [i for i in accepted if mon[i].startswith("good") and len(impl[i].split()) == 2]
+        if len(cand) > 120000:
+            cand = sorted(rng.sample(cand, 120000))
+        texts = [(i, a64_gnu.text_of(ops[i], insts)) for i in cand]
+        texts = [(i, t) for i, t in texts if t]
+        lw = a64_gnu.llvm_assemble([t for _, t in texts])
+        if lw is not None:
+            agree = sum(1 for (i, _), w in zip(texts, lw) if w == int(impl[i].split()[1], 16))
+            rejects = sum(1 for w in lw if w is None)
+            differ = [(ops[i], impl[i], t, "%08x" % w) for (i, t), w in zip(texts, lw) if w is not None and w != int(impl[i].split()[1], 16)]
+            res.coverage["oracle_llvm_mc"] = {"compared": len(texts), "same_word": agree, "llvm_refuses_text": rejects,
+                                              "SPEC-SUSPECT": len(differ), "samples": differ[:10]}
     if bad:
         # one violation per failing class (stable key), each with a concrete line
         seen = {}
@@ -452,13 +468,13 @@ def run(res):
             res.violation("real assembler: %s -> %s ; monitor: %s (%d such lines; instruction %s)" % (
                 ops[i], impl[i], m, len(lst), insts[int(ops[i].split()[2])]["name"]),
                 {"ops": [ops[i]], "impl": impl[i], "monitor": m, "more": [ops[j] for j, _ in lst[1:6]]}, True, key=key)
-    elif diffs:
+    if diffs:
         i = diffs[0]
         res.violation("correspondence model/implementation differs at %r: impl=%s model=%s (%d differing lines); the monitor accepts every answer "
                       "of the implementation" % (ops[i], impl[i], model[i], len(diffs)),
                       {"ops": [ops[i]], "impl": impl[i], "model": model[i], "unchecked": "correspondence Model/A64Asm.lean ~ a64assembler.cpp",
                        "more": [ops[j] for j in diffs[1:6]]}, False, key="corr")
-    elif broken:
+    if broken:
         res.violation("proof obligation no longer checks: " + " | ".join(broken)[:1500], {"unchecked": broken}, False, key="obligation")
 
 
